@@ -319,6 +319,95 @@ func c04Facts(repo string, w *strings.Builder) error {
 			}
 		}
 	}
+	// ---------------- (3) entry points that do not pass the Cypher lexer: the query builders and the pg statement builders
+	guardStart, guardPart, guardBody, err := c04Guard(filepath.Join(repo, "query", "v2"))
+	if err != nil {
+		return err
+	}
+	for _, dir := range []string{"query/v2", "query"} {
+		fs3, files3, err := parseDir(filepath.Join(repo, filepath.FromSlash(dir)))
+		if err != nil {
+			return err
+		}
+		for _, f := range files3 {
+			fname := dir + "/" + filepath.Base(fs3.Position(f.Pos()).Filename)
+			for _, d := range f.Decls {
+				fd, ok := d.(*ast.FuncDecl)
+				if !ok || fd.Body == nil {
+					continue
+				}
+				c04Walk(fd, func(stack []ast.Node, n ast.Node) {
+					switch x := n.(type) {
+					case *ast.CallExpr:
+						name := c04Print(fs3, x.Fun)
+						line := fs3.Position(x.Pos()).Line
+						switch name {
+						case "cypher.NewVariableWithSymbol", "cypherModel.NewVariableWithSymbol", "cypher.NewParameter", "cypherModel.NewParameter":
+							if len(x.Args) >= 1 && !c04ConstArg(x.Args[0]) {
+								sites = append(sites, c04Site{"symbol", fname, line, fd.Name.Name, c04Print(fs3, x.Args[0]), name})
+							}
+						case "validateCypherSymbol", "validateKnownIdentifiers", "validateBoundIdentifiers":
+							if len(x.Args) >= 1 {
+								aux := name
+								if len(x.Args) >= 2 && name == "validateCypherSymbol" {
+									aux += " ; " + c04Print(fs3, x.Args[1])
+								}
+								sites = append(sites, c04Site{"guard", fname, line, fd.Name.Name, c04Print(fs3, x.Args[0]), aux})
+							}
+						}
+					case *ast.CompositeLit:
+						if t := c04Print(fs3, x.Type); t == "cypher.Variable" || t == "cypherModel.Variable" || t == "cypher.Parameter" || t == "cypherModel.Parameter" {
+							for _, el := range x.Elts {
+								if kv, ok := el.(*ast.KeyValueExpr); ok && c04Print(fs3, kv.Key) == "Symbol" && !c04ConstArg(kv.Value) {
+									sites = append(sites, c04Site{"symbol", fname, fs3.Position(x.Pos()).Line, fd.Name.Name, c04Print(fs3, kv.Value), t + "{}"})
+								}
+							}
+						}
+					}
+				})
+			}
+		}
+	}
+	for _, dir := range []string{"drivers/pg/query", "drivers/pg/model"} {
+		fs4, files4, err := parseDir(filepath.Join(repo, filepath.FromSlash(dir)))
+		if err != nil {
+			return err
+		}
+		for _, f := range files4 {
+			base := filepath.Base(fs4.Position(f.Pos()).Filename)
+			if base != "format.go" {
+				continue
+			}
+			fname := dir + "/" + base
+			for _, d := range f.Decls {
+				fd, ok := d.(*ast.FuncDecl)
+				if !ok || fd.Body == nil {
+					continue
+				}
+				seen := map[string]bool{}
+				c04Walk(fd, func(stack []ast.Node, n ast.Node) {
+					call, ok := n.(*ast.CallExpr)
+					if !ok {
+						return
+					}
+					name := c04Print(fs4, call.Fun)
+					if name != "join" && !strings.HasSuffix(name, ".WriteString") {
+						return
+					}
+					for _, a := range call.Args {
+						if _, isLit := a.(*ast.BasicLit); isLit {
+							continue
+						}
+						t := c04Print(fs4, a)
+						if !seen[t] {
+							seen[t] = true
+							sites = append(sites, c04Site{"pgraw", fname, fs4.Position(a.Pos()).Line, fd.Name.Name, t, fmt.Sprint(c04Class(a))})
+						}
+					}
+				})
+			}
+		}
+	}
 	sort.SliceStable(writes, func(i, j int) bool {
 		if writes[i].line != writes[j].line {
 			return writes[i].line < writes[j].line
@@ -359,8 +448,96 @@ func c04Facts(repo string, w *strings.Builder) error {
 		}
 		fmt.Fprintf(w, "  ⟨%s, %s, %d, %s, %s, %s⟩%s\n", leanStr(s.kind), leanStr(s.file), s.line, leanStr(s.fn), leanStr(s.expr), leanStr(s.aux), sep)
 	}
-	w.WriteString("]\n\nend Dawgs.Generated.C04Sites\n")
+	w.WriteString("]\n\n")
+	w.WriteString("/-- query/v2/util.go: the disjuncts of isCypherSymbolStart / isCypherSymbolPart (`eq:c` = char == 'c', `unicode.X` = the\nrange table or predicate, `@start` = isCypherSymbolStart, `?…` = anything else) and what validateCypherSymbol calls -/\n")
+	fmt.Fprintf(w, "def guardStart : List String := %s\n", leanStrList(guardStart))
+	fmt.Fprintf(w, "def guardPart : List String := %s\n", leanStrList(guardPart))
+	fmt.Fprintf(w, "def guardBody : List String := %s\n", leanStrList(guardBody))
+	w.WriteString("\nend Dawgs.Generated.C04Sites\n")
 	return nil
+}
+
+// c04Guard reads the builder's symbol guard: the disjuncts of the two rune predicates and the calls of validateCypherSymbol.
+func c04Guard(dir string) (start, part, body []string, err error) {
+	fset, files, err := parseDir(dir)
+	if err != nil {
+		return nil, nil, nil, err
+	}
+	var atoms func(e ast.Expr) []string
+	atoms = func(e ast.Expr) []string {
+		switch x := e.(type) {
+		case *ast.ParenExpr:
+			return atoms(x.X)
+		case *ast.BinaryExpr:
+			if x.Op == token.LOR {
+				return append(atoms(x.X), atoms(x.Y)...)
+			}
+			if x.Op == token.EQL {
+				if l, ok := x.Y.(*ast.BasicLit); ok && l.Kind == token.CHAR {
+					if c, err := strconv.Unquote(l.Value); err == nil {
+						return []string{"eq:" + c}
+					}
+				}
+			}
+		case *ast.CallExpr:
+			name := c04Print(fset, x.Fun)
+			switch {
+			case name == "isCypherSymbolStart" && len(x.Args) == 1:
+				return []string{"@start"}
+			case name == "unicode.In" && len(x.Args) >= 2:
+				var out []string
+				for _, a := range x.Args[1:] {
+					out = append(out, c04Print(fset, a))
+				}
+				return out
+			case strings.HasPrefix(name, "unicode.") && len(x.Args) == 1:
+				return []string{name}
+			}
+		}
+		return []string{"?" + c04Print(fset, e)}
+	}
+	found := 0
+	for _, f := range files {
+		for _, d := range f.Decls {
+			fd, ok := d.(*ast.FuncDecl)
+			if !ok || fd.Body == nil {
+				continue
+			}
+			switch fd.Name.Name {
+			case "isCypherSymbolStart", "isCypherSymbolPart":
+				var as []string
+				if len(fd.Body.List) == 1 {
+					if r, ok := fd.Body.List[0].(*ast.ReturnStmt); ok && len(r.Results) == 1 {
+						as = atoms(r.Results[0])
+					}
+				}
+				if as == nil {
+					as = []string{"?body"}
+				}
+				if fd.Name.Name == "isCypherSymbolStart" {
+					start = as
+				} else {
+					part = as
+				}
+				found++
+			case "validateCypherSymbol":
+				ast.Inspect(fd.Body, func(n ast.Node) bool {
+					if c, ok := n.(*ast.CallExpr); ok {
+						body = append(body, c04Print(fset, c.Fun))
+					}
+					if b, ok := n.(*ast.BinaryExpr); ok && b.Op == token.EQL {
+						body = append(body, c04Print(fset, b))
+					}
+					return true
+				})
+				found++
+			}
+		}
+	}
+	if found != 3 {
+		return nil, nil, nil, fmt.Errorf("query/v2: symbol guard functions not found (%d of 3)", found)
+	}
+	return start, part, body, nil
 }
 
 // c04ConstArg: literals, the predeclared constants and negative numbers carry no user text.
